@@ -439,6 +439,8 @@ class Probe:
         self.frame_events: Dict[str, int] = {}
         self.bad_frames: List[str] = []
         self.work_log: List[Tuple[str, int]] = []   # (tag, id of the owning component: software / file system / interface)
+        self.bad_upper: List[str] = []  # a layer above the interface (node / session manager / software manager / software) entered on a non-ON node
+        self.upper_events: Dict[str, int] = {}
         self._undo = []
 
     def install(self):
@@ -517,6 +519,48 @@ class Probe:
                         active.discard(key)
                 setattr(cls, meth, w)
                 self._undo.append(lambda cls=cls, orig=orig: setattr(cls, meth, orig))
+
+        def upper(root, meth, layer, node_of):
+            """oracle for "it does not process traffic": the layers above the interface of a node that is not ON are never entered"""
+            todo, seen = [root], set()
+            while todo:
+                cls = todo.pop()
+                if cls in seen:
+                    continue
+                seen.add(cls)
+                todo += cls.__subclasses__()
+                if meth not in cls.__dict__:
+                    continue
+                orig = cls.__dict__[meth]
+
+                def w(self_, *a, _orig=orig, _cls=cls, **k):
+                    key = (id(self_), "upper:" + meth)
+                    if key not in active:
+                        try:
+                            node = node_of(self_)
+                        except Exception:
+                            node = None
+                        if node is not None:
+                            on = node.operating_state == NodeOperatingState.ON
+                            ev = f"{layer}:{'on' if on else 'not-on'}"
+                            probe.upper_events[ev] = probe.upper_events.get(ev, 0) + 1
+                            if not on:
+                                probe.bad_upper.append(f"{layer}|{type(self_).__name__}.{meth} on {node.config.hostname} "
+                                                       f"({node.operating_state.name})")
+                        active.add(key)
+                        try:
+                            return _orig(self_, *a, **k)
+                        finally:
+                            active.discard(key)
+                    return _orig(self_, *a, **k)
+                setattr(cls, meth, w)
+                self._undo.append(lambda cls=cls, orig=orig: setattr(cls, meth, orig))
+        from primaite.simulator.system.core.session_manager import SessionManager
+        from primaite.simulator.system.core.software_manager import SoftwareManager
+        upper(Node, "receive_frame", "node", lambda o: o)
+        upper(SessionManager, "receive_frame", "sess", lambda o: o.node)
+        upper(SoftwareManager, "receive_payload_from_session_manager", "swmgr", lambda o: o.node)
+        upper(Software, "receive", "software", lambda o: o.software_manager.node if o.software_manager else None)
 
         def sw(prefix):
             return lambda o: prefix + ("s" if isinstance(o, Service) else "a" if isinstance(o, Application) else "")
@@ -661,6 +705,13 @@ def load_line(decl: dict, n, wired: List[bool]) -> str:
             f"{len(n.services)} {len(n.applications)} {n.config.node_scan_duration}")
 
 
+def sess_token(n) -> str:
+    usm = n.user_session_manager
+    if usm is None:
+        return "s=L0,R0"
+    return f"s=L{1 if usm.local_session is not None else 0},R{len(usm.remote_sessions)}"
+
+
 def _svc_index(n, name: str) -> int:
     names = [s.name for s in n.services.values()]
     return names.index(name) if name in names else 99
@@ -753,12 +804,15 @@ def run_case(case: dict) -> Tuple[List[str], List[str], List[str], Dict[str, int
         sess_now = {i: 0 for i in range(len(nodes))}   # UserSessionManager.current_timestep as the reference sees it
         tmo = case.get("session_timeout")
         if tmo:
-            for n in nodes:
+            for i, n in enumerate(nodes):
                 n.user_session_manager.local_session_timeout_steps = tmo
                 n.user_session_manager.remote_session_timeout_steps = tmo
+                lines.append(f"sesscfg {i} {tmo} {tmo} {n.user_session_manager.max_remote_sessions}")
+                impl.append("ok")
 
         for k, op in enumerate(case["ops"]):
           nb = len(probe.bad_frames)
+          nu = len(probe.bad_upper)
           kind = op["op"]
           try:
               if kind == "tick":
@@ -787,8 +841,8 @@ def run_case(case: dict) -> Tuple[List[str], List[str], List[str], Dict[str, int
                   tr = traces()
                   wk = work()
                   for i, n in enumerate(nodes):
-                      lines.append(f"tick {i}")
-                      impl.append(f"done h={tr.get(i, '-')} w={wk.get(i, '')} {snapshot(n)}")
+                      lines.append(f"tick {i} {t - 1}")
+                      impl.append(f"done h={tr.get(i, '-')} w={wk.get(i, '')} {snapshot(n)} {sess_token(n)}")
                       # oracle (independent of the model): a node that is not ON before and after the tick moved no software clock
                       if before[i] != NodeOperatingState.ON and n.operating_state != NodeOperatingState.ON and _clocks(n) != clocks[i]:
                           oracle.append(f"software-clock-moved-while-not-on|{cls_of[i]}|{clocks[i]} -> {_clocks(n)} in tick {k}")
@@ -871,6 +925,8 @@ def run_case(case: dict) -> Tuple[List[str], List[str], List[str], Dict[str, int
                       oracle.append(f"login-succeeded-while-not-on|{cls_of[i]}|{n.operating_state.name}")
                   probe.frame_events[f"login:{'ON' if on else 'not-ON'}:{'ok' if sid else 'refused'}"] = \
                       probe.frame_events.get(f"login:{'ON' if on else 'not-ON'}:{'ok' if sid else 'refused'}", 0) + 1
+                  lines.append(f"login {i} {_svc_index(n, 'user-session-manager')} {'remote' if op.get('remote') else 'local'}")
+                  impl.append(f"{'ok' if sid else 'refused'} {sess_token(n)}")
                   traces()
               elif kind == "traffic":  # scenario scale: ping an address somewhere in the network; only the oracles look at it
                   try:
@@ -955,8 +1011,13 @@ def run_case(case: dict) -> Tuple[List[str], List[str], List[str], Dict[str, int
             break
           for b in probe.bad_frames[nb:]:
               oracle.append(f"frame-passed-interface-of-node-not-on|{b.split(' on ')[0]}|{b} during op {k} {op}")
+          for b in probe.bad_upper[nu:]:
+              oracle.append(f"frame-processed-above-interface-while-not-on|{b.split(' on ')[0]}|{b} during op {k} {op}")
           invariants(f"op {k} {op}")
-        return lines, impl, oracle, dict(probe.frame_events)
+        fe = dict(probe.frame_events)
+        for ev, v in probe.upper_events.items():
+            fe["above-interface:" + ev] = v
+        return lines, impl, oracle, fe
     finally:
         probe.remove()
 
